@@ -1254,9 +1254,20 @@ pub async fn exec_c13_cluster(script: Value) -> ExecResult {
                 let age = now.saturating_sub(newest);
                 let silent_for = now.saturating_sub(base);
                 let mut states = vec![];
+                let mut unrefreshed_owner: Vec<(u64, bool, u64)> = vec![];
                 for x in &live {
                     let l = instances_on(&node(*x).unwrap(), &name_of(ti)).await;
                     states.push((*x, l.iter().find(|i| i.ip.as_str() == ip_of(ti)).map(|i| (i.healthy, i.from_cluster))));
+                    // the node that supervises the instance (holds it as its own) and has not seen anything newer than the
+                    // client's last accepted heartbeat: the recorded defect F25 (a sync echo refreshed the time stamp without
+                    // queueing a time-out) cannot be what keeps the instance alive there
+                    if let Some(i) = l.iter().find(|i| i.ip.as_str() == ip_of(ti)) {
+                        // (the registry's time stamps are wall-clock ms = EPOCH0 + simulated time)
+                        let lm = (i.last_modified_millis as u64).saturating_sub(crate::interpose::EPOCH0_NS / 1_000_000);
+                        if i.from_cluster == 0 && killed.is_none() && lm <= newest + 200 && i.ephemeral && !i.from_grpc {
+                            unrefreshed_owner.push((*x, i.healthy, lm));
+                        }
+                    }
                 }
                 let _ = r0;
                 let (first_reg, _, cont_since) = addr.get(&(ti.svc % 3, ti.ip % 6)).cloned().unwrap_or((newest, newest, newest));
@@ -1282,6 +1293,11 @@ pub async fn exec_c13_cluster(script: Value) -> ExecResult {
                     }
                 }
                 if silent_for > h_ms + 8_000 {
+                    for (x, healthy, lm) in &unrefreshed_owner {
+                        if *healthy {
+                            vfail!("C13.cluster_owner_did_not_mark_unhealthy", "cluster of {}: node {} supervises {} of {} itself (from_cluster=0), has seen nothing of it after the client's last accepted heartbeat (time stamp {} ms, last heartbeat {} ms) and still serves it as healthy {} ms later (health time-out {} ms)", nn, x, ip_of(ti), name_of(ti), lm, newest, age, h_ms);
+                        }
+                    }
                     for (x, st) in &states {
                         if let Some((true, fc)) = st {
                             let v = Violation::new("C13.cluster_silent_still_healthy", format!("cluster of {}: {} of {} is still served as healthy by node {} (from_cluster={}) {} ms after its last heartbeat (health time-out {} ms){}", nn, ip_of(ti), name_of(ti), x, fc, age, h_ms, killed.map(|k| format!("; node {} was killed {} ms ago", k.0, now - k.1)).unwrap_or_default()));
@@ -1292,6 +1308,9 @@ pub async fn exec_c13_cluster(script: Value) -> ExecResult {
                     }
                 }
                 if silent_for > r_ms + 10_000 {
+                    if let Some((x, _, lm)) = unrefreshed_owner.first() {
+                        vfail!("C13.cluster_owner_did_not_remove", "cluster of {}: node {} supervises {} of {} itself (from_cluster=0), has seen nothing of it after the client's last accepted heartbeat (time stamp {} ms, last heartbeat {} ms) and still serves it {} ms later (instance time-out {} ms)", nn, x, ip_of(ti), name_of(ti), lm, newest, age, r_ms);
+                    }
                     let holders: Vec<String> = states.iter().filter_map(|(x, st)| st.map(|(h, fc)| format!("node {} (healthy={}, from_cluster={})", x, h, fc))).collect();
                     if !holders.is_empty() {
                         let v = Violation::new("C13.cluster_silent_not_removed", format!("cluster of {}: {} of {} is still served {} ms after its last heartbeat by {} (health time-out {} ms, instance time-out {} ms){}", nn, ip_of(ti), name_of(ti), age, holders.join(", "), h_ms, r_ms, killed.map(|k| format!("; node {} was killed {} ms ago", k.0, now - k.1)).unwrap_or_default()));
